@@ -10,11 +10,14 @@ import os, json, copy
 import vlib, femgen, femmrun
 from femgen import Builder, mesh_diameter
 
+# axisymmetric magnetics assembly models AsmMAxi.v / AsmMHAxi.v (tied to the code by props/xaxi.py, also run here)
+EXTENSIONS = ["xaxi"]
+EXTRA_PROPERTY_FILES = ["C11_axi"]
 LEVEL = "proof"
 COQ_MODULES = []
 ASSUMPTIONS = [
     "nonsingularity of the assembled matrix (uniqueness of the solution) is not proved; superposition is proved for solutions of the assembled systems and observed on the written solutions",
-    "for the axisymmetric and harmonic magnetics formulations there is no assembly model in Coq: C11 rests there on the run relations",
+    "axisymmetric magnetics: linearity of the right-hand side / independence of the matrix are proved through the whole static assembly (C11_axi_*), the harmonic model at omega = 0 equals the static one up to the SetValue / periodicity stage (C11_axi_harmonic_omega0_system_partial); planar harmonic: SuperposeProofs.v",
 ]
 
 
@@ -278,4 +281,6 @@ def correspond(ctx):
                    "unit excitation of each terminal through the real femmcli; nodal fields compared on the identical mesh")
     cov["input_distribution"] = feats
     cov["samples"] = samples
-    return []
+    from props import ext as extmod
+    return extmod.run(ctx, EXTENSIONS)
+
